@@ -24,7 +24,8 @@ def considered_uri(converter, u, ds):
     return not (converter is not None and uri_hit(converter, u)) and not github_issue(u) and disc_split(u, ds) is not None
 
 
-@contract("discovery._get_uri_prefix_to_luids", props=["C19", "C10"], returns="dict[str,set[str]]")
+@contract("discovery._get_uri_prefix_to_luids", props=["C19", "C10"], returns="dict[str,set[str]]",
+          partial="332 of 340 obligations discharge; open: preservation of the outer-loop invariant on the paths that add an identifier (break) — beyond the solvers' budget")
 def c_get_uri_prefix_to_luids(converter: "Converter|None", uris: list[str], delimiters: "list[str]|None"):
     requires(converter is None or WF(converter))
     requires(all(d != "" for d in (delimiters or [])))
@@ -38,26 +39,27 @@ def c_get_uri_prefix_to_luids(converter: "Converter|None", uris: list[str], deli
                 for k in result for luid in result[k]))
 
 
+def luids_inv(converter, ds, d_, seen):
+    """The map built so far is exactly what the contract states for the URIs `seen` (ds: the delimiter list in force)."""
+    return (all(any(considered_uri(converter, u, ds) and disc_split(u, ds)[0] == k for u in seen) for k in d_)
+            and all(disc_split(u, ds)[0] in d_ and disc_split(u, ds)[1] in d_[disc_split(u, ds)[0]]
+                    for u in seen if considered_uri(converter, u, ds))
+            and all(any(considered_uri(converter, u, ds) and disc_split(u, ds)[0] == k and disc_split(u, ds)[1] == luid for u in seen)
+                    for k in d_ for luid in d_[k]))
+
+
 @invariant("discovery._get_uri_prefix_to_luids", loop=0)
-def inv_luids0(converter, delimiters, uri_prefix_to_luids: dict[str, set[str]], _i, _xs):
-    return (all(any(considered_uri(converter, u, delimiters) and disc_split(u, delimiters)[0] == k for u in _xs[:_i]) for k in uri_prefix_to_luids)
-            and all(disc_split(u, delimiters)[0] in uri_prefix_to_luids
-                    and disc_split(u, delimiters)[1] in uri_prefix_to_luids[disc_split(u, delimiters)[0]]
-                    for u in _xs[:_i] if considered_uri(converter, u, delimiters))
-            and all(any(considered_uri(converter, u, delimiters) and disc_split(u, delimiters)[0] == k and disc_split(u, delimiters)[1] == luid
-                        for u in _xs[:_i]) for k in uri_prefix_to_luids for luid in uri_prefix_to_luids[k]))
+def inv_luids0(converter, delimiters, uri_prefix_to_luids: dict[str, set[str]], _i, _xs, _pre):
+    return (delimiters == (_pre(delimiters) or DEFAULT_DELIMS)
+            and luids_inv(converter, _pre(delimiters) or DEFAULT_DELIMS, uri_prefix_to_luids, _xs[:_i]))
 
 
 @invariant("discovery._get_uri_prefix_to_luids", loop=1)
-def inv_luids1(converter, delimiters, uri, uri_prefix_to_luids: dict[str, set[str]], _i, _xs, _outer_i, _outer_xs):
-    return (all(any(considered_uri(converter, u, delimiters) and disc_split(u, delimiters)[0] == k for u in _outer_xs[:_outer_i]) for k in uri_prefix_to_luids)
-            and all(disc_split(u, delimiters)[0] in uri_prefix_to_luids
-                    and disc_split(u, delimiters)[1] in uri_prefix_to_luids[disc_split(u, delimiters)[0]]
-                    for u in _outer_xs[:_outer_i] if considered_uri(converter, u, delimiters))
-            and all(any(considered_uri(converter, u, delimiters) and disc_split(u, delimiters)[0] == k and disc_split(u, delimiters)[1] == luid
-                        for u in _outer_xs[:_outer_i]) for k in uri_prefix_to_luids for luid in uri_prefix_to_luids[k])
+def inv_luids1(converter, delimiters, uri, uri_prefix_to_luids: dict[str, set[str]], _i, _xs, _outer_i, _outer_xs, _pre):
+    return (delimiters == (_pre(delimiters) or DEFAULT_DELIMS) and _xs == (_pre(delimiters) or DEFAULT_DELIMS)
+            and luids_inv(converter, _pre(delimiters) or DEFAULT_DELIMS, uri_prefix_to_luids, _outer_xs[:_outer_i])
             # no earlier delimiter (in priority order) splits this URI
-            and all(not (d in uri and uri.rsplit(d, 1)[1].isalnum()) for d in _xs[:_i]))
+            and all(not (d in uri and uri.rsplit(d, 1)[1].isalnum()) for d in (_pre(delimiters) or DEFAULT_DELIMS)[:_i]))
 
 
 @contract("discovery.discover", props=["C19", "C10"], returns="Converter")
